@@ -7,18 +7,21 @@
 #include <stdlib.h>
 
 static int mode_ref; static uint64_t fam_first[NFAM + 1];
-static int fam_lo = 0, fam_hi = NFAM;
+static int fam_lo = 0, fam_hi = NFAM; static int ord[NFAM], n_ord;
 void drv_init (int thorough) {
   progfam_thorough = thorough;
   const char *m = getenv ("VP_MODE"); mode_ref = m && strcmp (m, "ref") == 0;
   const char *fs = getenv ("VP_FAMILIES"); /* optional "lo:hi" restriction, used by other checks */
   if (fs) sscanf (fs, "%d:%d", &fam_lo, &fam_hi);
-  fam_first[fam_lo] = 0;
-  for (int i = fam_lo; i < fam_hi; i++) fam_first[i + 1] = fam_first[i] + FAMILIES[i].count (thorough);
+  /* families are enumerated smallest first, so that a deadline (thorough tier) cuts only the largest ones */
+  n_ord = 0; for (int i = fam_lo; i < fam_hi; i++) ord[n_ord++] = i;
+  for (int i = 1; i < n_ord; i++) for (int j = i; j > 0 && FAMILIES[ord[j]].count (thorough) < FAMILIES[ord[j - 1]].count (thorough); j--) { int t = ord[j]; ord[j] = ord[j - 1]; ord[j - 1] = t; }
+  fam_first[0] = 0;
+  for (int i = 0; i < n_ord; i++) fam_first[i + 1] = fam_first[i] + FAMILIES[ord[i]].count (thorough);
 }
-uint64_t drv_ncases (void) { return fam_first[fam_hi]; }
+uint64_t drv_ncases (void) { return fam_first[n_ord]; }
 static const family *locate (uint64_t idx, uint64_t *local) {
-  for (int i = fam_lo; i < fam_hi; i++) if (idx < fam_first[i + 1]) { *local = idx - fam_first[i]; return &FAMILIES[i]; }
+  for (int i = 0; i < n_ord; i++) if (idx < fam_first[i + 1]) { *local = idx - fam_first[i]; return &FAMILIES[ord[i]]; }
   return NULL;
 }
 void drv_describe (uint64_t idx, char *buf, size_t n) {
